@@ -28,11 +28,19 @@ def stdCfg (cfg : Config) : Prop :=
 def flatRes (p : Schema) : TyRes :=
   { ty := scalarTy p, bounds := if p.node.types = ["integer"] then some (nodeBounds p.node) else none }
 
-theorem inline_flat (cfg : Config) (doc : SchemaDoc) (hc : stdCfg cfg) (f : Nat) (p : Schema) (scope : String)
+/-- what the generator-level theorems need of the options: default capitalizations, no `--min-sized-ints`, a root type
+    name given by the mapping, a package; `--tags`, `--only-models`, `--extra-imports` are free -/
+def genCfg (cfg : Config) : Prop :=
+  cfg.caps = [] ∧ cfg.minSizedInts = false ∧ cfg.rootType ≠ "" ∧ cfg.pkg ≠ ""
+
+theorem stdCfg.gen {cfg : Config} (h : stdCfg cfg) : genCfg cfg :=
+  ⟨h.2.1, h.2.2.2.1, by rw [h.2.2.2.2.1]; decide, h.2.2.2.2.2⟩
+
+theorem inline_flat (cfg : Config) (doc : SchemaDoc) (hc : genCfg cfg) (f : Nat) (p : Schema) (scope : String)
     (hp : FlatProp p) (st : GenSt) :
     (generateTypeInline cfg doc (f + 1) p scope none).run st = .ok (flatRes p, st) := by
   obtain ⟨ht, href, henum, hext, hany, hall, hfmt, hdef, hsub, hmul⟩ := hp
-  obtain ⟨_, _, _, hms, _, _⟩ := hc
+  obtain ⟨_, hms, _, _⟩ := hc
   rw [generateTypeInline]
   rcases ht with ht | ht | ht | ht <;>
   simp [ht, href, henum, hext, hany, hall, hfmt, hsub, hms, scalarTy, flatRes, isPrimitiveTypeName, primitiveType, stringType,
@@ -50,6 +58,21 @@ def fieldOf (cfg : Config) (t : Schema) (name : String) : Field :=
   { name := fname name, jsonName := name, ty := ftyOf t name, tags := mkTags cfg name isRequired,
     jsonKey := name, yamlKey := name, omitEmpty := !isRequired,
     comment := if prop.node.description = "" then s!"{fname name} corresponds to the JSON schema field \"{name}\"." else prop.node.description }
+
+/-- the struct field of a property under ANY tag list (`--tags`): the tag text and which key each wire binds depend on it,
+    name and type do not -/
+def fieldOfG (cfg : Config) (t : Schema) (name : String) : Field :=
+  let prop := propOf t name
+  let isRequired := t.node.required.contains name
+  { name := fname name, jsonName := name, ty := ftyOf t name, tags := mkTags cfg name isRequired,
+    jsonKey := if cfg.tags.contains "json" then name else fname name,
+    yamlKey := if cfg.tags.contains "yaml" then name else (fname name).toLower,
+    omitEmpty := !isRequired && cfg.tags.contains "json",
+    comment := if prop.node.description = "" then s!"{fname name} corresponds to the JSON schema field \"{name}\"." else prop.node.description }
+
+theorem fieldOfG_std (cfg : Config) (t : Schema) (name : String) (h : cfg.tags = ["json", "yaml", "mapstructure"]) :
+    fieldOfG cfg t name = fieldOf cfg t name := by
+  simp [fieldOfG, fieldOf, h]
 
 def metaOf (t : Schema) (name : String) : FieldMeta :=
   { name := fname name, jsonName := name, sch := propOf t name, dflt := none, ty := ftyOf t name }
@@ -73,11 +96,11 @@ theorem alookup_snoc_none {α : Type} (k k' : String) (v : α) (l : List (String
     · cases h
     · rename_i hka; simp [hka, ih h]
 
-theorem fields_flat (cfg : Config) (doc : SchemaDoc) (hc : stdCfg cfg) (t : Schema) (scope : String) (st : GenSt) :
+theorem fields_flat (cfg : Config) (doc : SchemaDoc) (hc : genCfg cfg) (t : Schema) (scope : String) (st : GenSt) :
     ∀ (ns : List String) (f : Nat) (unique : List (String × Nat)) (fs : List Field) (ms : List FieldMeta) (req : List String),
       (∀ n ∈ ns, NameOK t n) → (ns.map fname).Nodup → (∀ n ∈ ns, alookup (fname n) unique = none) → ns.length + 2 ≤ f →
       (addStructFields cfg doc f t scope ns unique fs ms req).run st =
-        .ok ((fs ++ ns.map (fieldOf cfg t), ms ++ ns.map (metaOf t), req ++ ns.filter (fun n => t.node.required.contains n)), st) := by
+        .ok ((fs ++ ns.map (fieldOfG cfg t), ms ++ ns.map (metaOf t), req ++ ns.filter (fun n => t.node.required.contains n)), st) := by
   intro ns
   induction ns with
   | nil =>
@@ -88,8 +111,7 @@ theorem fields_flat (cfg : Config) (doc : SchemaDoc) (hc : stdCfg cfg) (t : Sche
     intro f unique fs ms req hok hnd hun hf
     obtain ⟨g, rfl⟩ : ∃ g, f = g + 2 := ⟨f - 2, by simp at hf; omega⟩
     obtain ⟨⟨prop, hprop, hflat⟩, htag, hascii, _⟩ := hok n (by simp)
-    have hcaps : cfg.caps = [] := hc.2.1
-    have htags : cfg.tags = ["json", "yaml", "mapstructure"] := hc.1
+    have hcaps : cfg.caps = [] := hc.1
     have hu : alookup (fname n) unique = none := hun n (by simp)
     rw [addStructFields]
     have hinl := inline_flat cfg doc hc g prop (scope ++ fname n) hflat
@@ -101,7 +123,7 @@ theorem fields_flat (cfg : Config) (doc : SchemaDoc) (hc : stdCfg cfg) (t : Sche
     have hsch : (match (flatRes prop).bounds with | some b => withBounds prop b | none => prop) = prop := by
       rcases hflat.1 with h | h | h | h <;> simp [flatRes, h, withBounds_self]
     have hrest : (addStructFields cfg doc (g + 1) t scope rest (unique ++ [(identifierizeStr [] n, 1)])
-        (fs ++ [fieldOf cfg t n]) (ms ++ [metaOf t n]) (req ++ (if t.node.required.contains n then [n] else []))).run st = _ :=
+        (fs ++ [fieldOfG cfg t n]) (ms ++ [metaOf t n]) (req ++ (if t.node.required.contains n then [n] else []))).run st = _ :=
       ih (g + 1) _ _ _ _ (fun m hm => hok m (by simp [hm])) (by simpa using (List.nodup_cons.mp hnd).2)
         (by
           intro m hm
@@ -112,11 +134,11 @@ theorem fields_flat (cfg : Config) (doc : SchemaDoc) (hc : stdCfg cfg) (t : Sche
     simp only [StateT.run] at hrest
     simp [hprop, htag, identifierizeM, hascii, hcaps, hflat.2.2.2.1, nextFieldName, fname, hu, hflat.2.2.2.2.2.2.2.1,
       StateT.run, bind, StateT.bind, pure, StateT.pure, get, getThe, MonadStateOf.get, StateT.get, Except.bind, Except.pure, hinl,
-      hnil, hwrap, hsch, htags]
-    simp only [fieldOf, metaOf, ftyOf, propOf, hprop, fname, Option.getD] at hrest
+      hnil, hwrap, hsch]
+    simp only [fieldOfG, metaOf, ftyOf, propOf, hprop, fname, Option.getD] at hrest
     by_cases hr : n ∈ t.node.required <;> rcases hflat.1 with h | h | h | h <;>
       simp [hr, flatRes, h, withBounds_self] at hrest ⊢ <;>
-      (rw [hrest]; simp [fieldOf, metaOf, ftyOf, propOf, hprop, fname, hr])
+      (rw [hrest]; simp [fieldOfG, metaOf, ftyOf, propOf, hprop, fname, hr])
 
 structure FlatObj (t : Schema) : Prop where
   types : t.node.types = ["object"]
@@ -133,13 +155,20 @@ structure FlatObj (t : Schema) : Prop where
   distinct : ((sortedKeys t.node.props).map fname).Nodup
 
 def flatFields (cfg : Config) (t : Schema) : List Field := (sortedKeys t.node.props).map (fieldOf cfg t)
+def flatFieldsG (cfg : Config) (t : Schema) : List Field := (sortedKeys t.node.props).map (fieldOfG cfg t)
+
+theorem flatFieldsG_std (cfg : Config) (t : Schema) (h : cfg.tags = ["json", "yaml", "mapstructure"]) :
+    flatFieldsG cfg t = flatFields cfg t := by
+  unfold flatFieldsG flatFields
+  exact List.map_congr_left (fun n _ => fieldOfG_std cfg t n h)
+
 def flatMetas (t : Schema) : List FieldMeta := (sortedKeys t.node.props).map (metaOf t)
 def flatReq (t : Schema) : List String := (sortedKeys t.node.props).filter (fun n => t.node.required.contains n)
 
-theorem type_flat (cfg : Config) (doc : SchemaDoc) (hc : stdCfg cfg) (t : Schema) (scope : String) (st : GenSt)
+theorem type_flat (cfg : Config) (doc : SchemaDoc) (hc : genCfg cfg) (t : Schema) (scope : String) (st : GenSt)
     (h : FlatObj t) (f : Nat) (hf : (sortedKeys t.node.props).length + 4 ≤ f) :
     (generateType cfg doc f t scope).run st =
-      .ok ({ ty := .strct (flatFields cfg t), smeta := some { required := flatReq t, fields := flatMetas t } }, st) := by
+      .ok ({ ty := .strct (flatFieldsG cfg t), smeta := some { required := flatReq t, fields := flatMetas t } }, st) := by
   obtain ⟨g, rfl⟩ : ∃ g, f = g + 2 := ⟨f - 2, by omega⟩
   have hfs := fields_flat cfg doc hc t scope st (sortedKeys t.node.props) g [] [] [] [] h.names h.distinct
     (fun _ _ => rfl) (by omega)
@@ -150,7 +179,7 @@ theorem type_flat (cfg : Config) (doc : SchemaDoc) (hc : stdCfg cfg) (t : Schema
     | cons _ _ => rfl
   rw [generateType]
   simp [h.ext, h.enum, h.ref, h.types, determineTypeName, generateStructType, hpe, h.anyOf, h.allOf, h.addl,
-    StateT.run, bind, StateT.bind, pure, StateT.pure, Except.bind, Except.pure, hfs, flatFields, flatMetas, flatReq]
+    StateT.run, bind, StateT.bind, pure, StateT.pure, Except.bind, Except.pure, hfs, flatFieldsG, flatMetas, flatReq]
 
 /-- states that differ only in bookkeeping the declarations do not depend on (imports, issues, warnings, used packages) -/
 structure Same (a b : GenSt) : Prop where
@@ -278,39 +307,56 @@ def rootDecl (cfg : Config) (t : Schema) : Decl :=
   { name := "Root", ty := .strct (flatFields cfg t), comment := t.node.description,
     body := .plain (flatAllVs t) (!(flatAllVs t).isEmpty), schema := keptSchema cfg t }
 
-theorem declared_flat (cfg : Config) (doc : SchemaDoc) (hc : stdCfg cfg) (t : Schema)
+/-- the one declaration the generator emits for a flat object, under any `--tags`, `--only-models`, `--extra-imports`
+    and root type name -/
+def rootDeclG (cfg : Config) (t : Schema) : Decl :=
+  { name := cfg.rootType, ty := .strct (flatFieldsG cfg t), comment := t.node.description,
+    body := if cfg.onlyModels then .plain [] false else .plain (flatAllVs t) (!(flatAllVs t).isEmpty),
+    schema := keptSchema cfg t }
+
+theorem rootDeclG_std (cfg : Config) (t : Schema) (h : stdCfg cfg) : rootDeclG cfg t = rootDecl cfg t := by
+  simp [rootDeclG, rootDecl, h.2.2.2.2.1, h.2.2.1, flatFieldsG_std cfg t h.1]
+
+theorem declared_flat (cfg : Config) (doc : SchemaDoc) (hc : genCfg cfg) (t : Schema)
     (h : FlatObj t) (f : Nat) (hf : (sortedKeys t.node.props).length + 5 ≤ f) :
-    ∃ st', (generateDeclaredType cfg doc f t "Root" none).run {} = .ok (.named "Root", st') ∧ st'.decls = [rootDecl cfg t] := by
+    ∃ st', (generateDeclaredType cfg doc f t cfg.rootType none).run {} = .ok (.named cfg.rootType, st') ∧
+      st'.decls = [rootDeclG cfg t] := by
   obtain ⟨g, rfl⟩ : ∃ g, f = g + 1 := ⟨f - 1, by omega⟩
-  have hty := fun st => type_flat cfg doc hc t "Root" st h g (by omega)
-  obtain ⟨st1, h1, hs1⟩ := loop_flat t (sortedKeys t.node.props) ((flatReq t).map Validator.required) { inProgress := [("Root", t)] } h.names
+  have hty := fun st => type_flat cfg doc hc t cfg.rootType st h g (by omega)
+  obtain ⟨st1, h1, hs1⟩ := loop_flat t (sortedKeys t.node.props) ((flatReq t).map Validator.required) { inProgress := [(cfg.rootType, t)] } h.names
   obtain ⟨st2, h2, hs2⟩ := umi_same cfg (flatAllVs t) st1
-  obtain ⟨st3, h3, hd3⟩ := finish_fresh cfg "Root" t t (.strct (flatFields cfg t)) (.plain (flatAllVs t) true) st2 (by rw [hs2.decls, hs1.decls])
-  obtain ⟨st4, h4, hd4⟩ := finish_fresh cfg "Root" t t (.strct (flatFields cfg t)) (.plain (flatAllVs t) false) st1 (by rw [hs1.decls])
-  simp only [StateT.run] at hty h1 h2 h3 h4
+  obtain ⟨st3, h3, hd3⟩ := finish_fresh cfg cfg.rootType t t (.strct (flatFieldsG cfg t)) (.plain (flatAllVs t) true) st2 (by rw [hs2.decls, hs1.decls])
+  obtain ⟨st4, h4, hd4⟩ := finish_fresh cfg cfg.rootType t t (.strct (flatFieldsG cfg t)) (.plain (flatAllVs t) false) st1 (by rw [hs1.decls])
+  obtain ⟨st5, h5, hd5⟩ := finish_fresh cfg cfg.rootType t t (.strct (flatFieldsG cfg t)) (.plain [] false) { inProgress := [(cfg.rootType, t)] } rfl
+  simp only [StateT.run] at hty h1 h2 h3 h4 h5
   rw [generateDeclaredType]
+  by_cases hom : cfg.onlyModels = true
+  · refine ⟨st5, ?_, by simp [hd5, rootDeclG, hom]⟩
+    simp [isUniqueTypeName, visibleNames, declNames, h.enum, uniqueTypeName, hty, isNamedType, hom,
+      StateT.run, bind, StateT.bind, pure, StateT.pure, get, getThe, MonadStateOf.get, StateT.get, modify, modifyGet, MonadStateOf.modifyGet, StateT.modifyGet, Except.bind, Except.pure, h5]
+  have hom' : cfg.onlyModels = false := by simpa using hom
   by_cases hv : flatAllVs t = []
-  · refine ⟨st4, ?_, by simp [hd4, rootDecl, hv]⟩
+  · refine ⟨st4, ?_, by simp [hd4, rootDeclG, hv, hom']⟩
     simp only [flatAllVs] at hv h4
-    simp [isUniqueTypeName, visibleNames, declNames, h.enum, uniqueTypeName, hty, isNamedType, hc.2.2.1, h.anyOfCount, h.subElem,
+    simp [isUniqueTypeName, visibleNames, declNames, h.enum, uniqueTypeName, hty, isNamedType, hom', h.anyOfCount, h.subElem,
       StateT.run, bind, StateT.bind, pure, StateT.pure, get, getThe, MonadStateOf.get, StateT.get, modify, modifyGet, MonadStateOf.modifyGet, StateT.modifyGet, Except.bind, Except.pure,
       flatMetas, h1, hv]
     rw [hv] at h4; exact h4
-  · refine ⟨st3, ?_, by simp [hd3, rootDecl, hv]⟩
+  · refine ⟨st3, ?_, by simp [hd3, rootDeclG, hv, hom']⟩
     simp only [flatAllVs] at hv h3 h2
-    simp [isUniqueTypeName, visibleNames, declNames, h.enum, uniqueTypeName, hty, isNamedType, hc.2.2.1, h.anyOfCount, h.subElem,
+    simp [isUniqueTypeName, visibleNames, declNames, h.enum, uniqueTypeName, hty, isNamedType, hom', h.anyOfCount, h.subElem,
       StateT.run, bind, StateT.bind, pure, StateT.pure, get, getThe, MonadStateOf.get, StateT.get, modify, modifyGet, MonadStateOf.modifyGet, StateT.modifyGet, Except.bind, Except.pure,
       flatMetas, h1, hv, h2, h3]
 
-/-- **the generator on the flat fragment**: for EVERY flat object schema the model generator succeeds and emits
-    exactly one declaration, in closed form -/
-theorem run_flat (cfg : Config) (hc : stdCfg cfg) (t : Schema) (h : FlatObj t) (id : String)
+/-- **the generator on the flat fragment, for every option set of `genCfg`**: for EVERY flat object schema the model
+    generator succeeds and emits exactly one declaration, in closed form -/
+theorem run_flat_gen (cfg : Config) (hc : genCfg cfg) (t : Schema) (h : FlatObj t) (id : String)
     (hlen : (sortedKeys t.node.props).length ≤ 190) :
-    ∃ out, Gen.run cfg { id := id, hasRoot := true, root := t, defs := [] } = .ok out ∧ out.decls = [rootDecl cfg t] := by
+    ∃ out, Gen.run cfg { id := id, hasRoot := true, root := t, defs := [] } = .ok out ∧ out.decls = [rootDeclG cfg t] := by
   obtain ⟨st', hd, hdecls⟩ := declared_flat cfg { id := id, hasRoot := true, root := t, defs := [] } hc t h 200 (by omega)
   simp only [StateT.run] at hd
-  have hroot : cfg.rootType = "Root" := hc.2.2.2.2.1
-  have hpkg : cfg.pkg ≠ "" := hc.2.2.2.2.2
+  have hroot : cfg.rootType ≠ "" := hc.2.2.1
+  have hpkg : cfg.pkg ≠ "" := hc.2.2.2
   have hrun : (generateRootType cfg { id := id, hasRoot := true, root := t, defs := [] }).run {} = .ok ((), st') := by
     simp [generateRootType, hpkg, sortedKeys, h.types, getRootTypeName, hroot, byNameKeys, visibleNames, declNames,
       StateT.run, bind, StateT.bind, pure, StateT.pure, get, getThe, MonadStateOf.get, StateT.get, Except.bind, Except.pure, hd,
@@ -318,4 +364,59 @@ theorem run_flat (cfg : Config) (hc : stdCfg cfg) (t : Schema) (h : FlatObj t) (
   unfold Gen.run
   rw [hrun]
   exact ⟨_, rfl, hdecls⟩
+
+/-- the default option set -/
+theorem run_flat (cfg : Config) (hc : stdCfg cfg) (t : Schema) (h : FlatObj t) (id : String)
+    (hlen : (sortedKeys t.node.props).length ≤ 190) :
+    ∃ out, Gen.run cfg { id := id, hasRoot := true, root := t, defs := [] } = .ok out ∧ out.decls = [rootDecl cfg t] := by
+  obtain ⟨out, h1, h2⟩ := run_flat_gen cfg hc.gen t h id hlen
+  exact ⟨out, h1, by rw [h2, rootDeclG_std cfg t hc]⟩
+
+/-! ### C16 at generator level: what the output-shaping options change, for every flat schema -/
+
+/-- `--extra-imports` changes no declaration -/
+theorem extra_imports_same_decls (cfg : Config) (hc : genCfg cfg) (t : Schema) (h : FlatObj t) (id : String) (b : Bool)
+    (hlen : (sortedKeys t.node.props).length ≤ 190) :
+    ∃ o1 o2, Gen.run cfg { id := id, hasRoot := true, root := t, defs := [] } = .ok o1 ∧
+      Gen.run { cfg with extraImports := b } { id := id, hasRoot := true, root := t, defs := [] } = .ok o2 ∧ o1.decls = o2.decls := by
+  obtain ⟨o1, h1, d1⟩ := run_flat_gen cfg hc t h id hlen
+  obtain ⟨o2, h2, d2⟩ := run_flat_gen { cfg with extraImports := b } hc t h id hlen
+  exact ⟨o1, o2, h1, h2, by rw [d1, d2]; rfl⟩
+
+/-- `--only-models` keeps the type declaration — name, fields, field types, tags — and drops exactly the validators and
+    the method -/
+theorem only_models_keeps_type (cfg : Config) (hc : genCfg cfg) (t : Schema) (h : FlatObj t) (id : String)
+    (hlen : (sortedKeys t.node.props).length ≤ 190) :
+    ∃ o1 o2 d1 d2, Gen.run { cfg with onlyModels := false } { id := id, hasRoot := true, root := t, defs := [] } = .ok o1 ∧
+      Gen.run { cfg with onlyModels := true } { id := id, hasRoot := true, root := t, defs := [] } = .ok o2 ∧
+      o1.decls = [d1] ∧ o2.decls = [d2] ∧ d1.name = d2.name ∧ d1.ty = d2.ty ∧ d1.comment = d2.comment ∧
+      d2.body = .plain [] false := by
+  obtain ⟨o1, h1, e1⟩ := run_flat_gen { cfg with onlyModels := false } hc t h id hlen
+  obtain ⟨o2, h2, e2⟩ := run_flat_gen { cfg with onlyModels := true } hc t h id hlen
+  exact ⟨o1, o2, _, _, h1, h2, e1, e2, rfl, rfl, rfl, rfl⟩
+
+/-- the root type name given by the mapping (`--schema-root-type`) changes only the declaration's name -/
+theorem root_type_changes_only_name (cfg : Config) (hc : genCfg cfg) (t : Schema) (h : FlatObj t) (id : String) (r : String)
+    (hr : r ≠ "") (hlen : (sortedKeys t.node.props).length ≤ 190) :
+    ∃ o1 o2 d1 d2, Gen.run cfg { id := id, hasRoot := true, root := t, defs := [] } = .ok o1 ∧
+      Gen.run { cfg with rootType := r } { id := id, hasRoot := true, root := t, defs := [] } = .ok o2 ∧
+      o1.decls = [d1] ∧ o2.decls = [d2] ∧ d2.name = r ∧ d1.ty = d2.ty ∧ d1.body = d2.body ∧ d1.comment = d2.comment := by
+  obtain ⟨o1, h1, e1⟩ := run_flat_gen cfg hc t h id hlen
+  obtain ⟨o2, h2, e2⟩ := run_flat_gen { cfg with rootType := r } ⟨hc.1, hc.2.1, hr, hc.2.2.2⟩ t h id hlen
+  exact ⟨o1, o2, _, _, h1, h2, e1, e2, rfl, rfl, rfl, rfl⟩
+
+/-- `--tags` changes only the tag text and the keys bound through it: field names, field types, validators and the method
+    are the same for every tag list -/
+theorem tags_change_only_tags (cfg : Config) (hc : genCfg cfg) (t : Schema) (h : FlatObj t) (id : String) (tags : List String)
+    (hlen : (sortedKeys t.node.props).length ≤ 190) :
+    ∃ o1 o2 d1 d2 fs1 fs2, Gen.run cfg { id := id, hasRoot := true, root := t, defs := [] } = .ok o1 ∧
+      Gen.run { cfg with tags := tags } { id := id, hasRoot := true, root := t, defs := [] } = .ok o2 ∧
+      o1.decls = [d1] ∧ o2.decls = [d2] ∧ d1.name = d2.name ∧ d1.body = d2.body ∧
+      d1.ty = .strct fs1 ∧ d2.ty = .strct fs2 ∧ fs1.map (·.name) = fs2.map (·.name) ∧ fs1.map (·.ty) = fs2.map (·.ty) ∧
+      fs1.map (·.jsonName) = fs2.map (·.jsonName) := by
+  obtain ⟨o1, h1, e1⟩ := run_flat_gen cfg hc t h id hlen
+  obtain ⟨o2, h2, e2⟩ := run_flat_gen { cfg with tags := tags } hc t h id hlen
+  refine ⟨o1, o2, _, _, _, _, h1, h2, e1, e2, rfl, rfl, rfl, rfl, ?_, ?_, ?_⟩ <;>
+    simp [flatFieldsG, List.map_map, Function.comp_def, fieldOfG]
+
 end GJS.Props.Flat
